@@ -18,6 +18,8 @@
     14  the same on an encoding with one corrupted type byte                                (oracle)
     15  FastRead panicked on a truncated encoding and the model does not say why            (oracle)
     16  the same on an encoding with one corrupted type byte / an encoding with extra fields (oracle)
+    18  the statements bitset.go emits for n required fields (observed text, parsed) do not report exactly the
+        first field that was not read, on some set of fields read                             (oracle)
     17  the driver process died (Go runtime: out of memory) in FastRead where the model answers with an
         error: the generated code allocates make(T, size) with a size taken from the input before it looks
         at the bytes that follow                                                              (oracle)
@@ -26,7 +28,7 @@
     12  FastAppend / BLength / FastWrite panicked                                          (oracle)   *)
 From Coq Require Import List ZArith Bool NArith Lia.
 From Verif Require Import Base.Bytes Base.BE Wire.TType Wire.WVal Wire.Codec Wire.Schema Wire.Value Wire.Std
-                          Wire.Fast Corr.C02.
+                          Wire.Fast Wire.FastBitset Corr.C02.
 Import ListNotations.
 Open Scope Z_scope.
 
@@ -54,7 +56,35 @@ Inductive case :=
         (s_err : obs_err) (s_dump : value)
 | CTrunc (sname : bytes) (own : bool) (input : bytes) (obs : list fobs)   (* obs[i]: FastRead of the first i bytes *)
 | CCorrupt (sname : bytes) (input : bytes) (b_err : fobs) (b_off : Z) (b_dump : value)
-           (l : list (Z * Z * fobs * Z * option value)).            (* position, new byte, class, off, dump (None = as base) *)
+           (l : list (Z * Z * fobs * Z * option value))             (* position, new byte, class, off, dump (None = as base) *)
+| CBitset (n : Z) (nwords : Z) (setbits : list (Z * Z)) (prog : list block).  (* what bitsetCodeGen emitted for n values *)
+
+(* constructors with Z arguments for the machine-written case files *)
+Definition btest (w mask v : Z) : test := Test (Z.to_nat w) mask (Z.to_nat v).
+Definition bguard (w full : Z) (ts : list test) : block := Guarded (Z.to_nat w) full ts.
+Definition bplain (ts : list test) : block := Plain ts.
+
+Definition test_eqb (a b : test) : bool :=
+  match a, b with Test w m v, Test w' m' v' => (w =? w')%nat && (m =? m') && (v =? v')%nat end.
+Definition block_eqb (a b : block) : bool :=
+  match a, b with
+  | Guarded w c ts, Guarded w' c' ts' => (w =? w')%nat && (c =? c') && list_eqb test_eqb ts ts'
+  | Plain ts, Plain ts' => list_eqb test_eqb ts ts'
+  | _, _ => false end.
+
+(* the words after the OBSERVED set-bit statements of the fields in [seen] ran *)
+Definition obs_state (setbits : list (Z * Z)) (seen : list nat) : words :=
+  fold_left (fun st i => match nth_error setbits i with
+                         | Some (w, m) => set_word st (Z.to_nat w) m
+                         | None => st end) seen (fun _ => 0).
+
+(* sets of fields read: none, all, all but one (for every field), the even ones, the odd ones in reverse *)
+Definition seen_family (n : nat) : list (list nat) :=
+  [] :: seq 0 n :: filter Nat.even (seq 0 n) :: rev (filter Nat.odd (seq 0 n)) ::
+  map (fun k => filter (fun i => negb (i =? k)%nat) (seq 0 n)) (seq 0 n).
+
+Definition onat_eqb (a b : option nat) : bool :=
+  match a, b with Some x, Some y => (x =? y)%nat | None, None => true | _, _ => false end.
 
 (* what the model says, as an observable *)
 Inductive mobs := MOk (v : value) (n : Z) | MErr (c : fobs) | MPanic (index : bool) | MFuel | MDomain.
@@ -209,6 +239,16 @@ Definition check (e : env) (c : case) : list N :=
                           panic_codes false m c
                       end) l
       end
+  | CBitset nz nwords setbits prog =>
+      let n := Z.to_nat nz in
+      (if (gen_var n =? Z.to_nat nwords)%nat &&
+          list_eqb (fun a b : nat * Z => (fst a =? fst b)%nat && (snd a =? snd b)) (map (gen_setbit n) (seq 0 n))
+                   (map (fun p : Z * Z => (Z.to_nat (fst p), snd p)) setbits) &&
+          list_eqb block_eqb (gen_if_not_set n) prog
+       then [] else [1%N]) ++
+      (if (length setbits =? n)%nat &&
+          forallb (fun seen => onat_eqb (run (obs_state setbits seen) prog) (first_unset n seen)) (seen_family n)
+       then [] else [18%N])
   end.
 
 Fixpoint mismatches_from (e : env) (i : N) (cs : list case) : list (N * N) :=
